@@ -1,0 +1,40 @@
+// +build verif
+
+package masswallet
+
+import (
+	"github.com/massnetorg/mass-core/wire"
+	"massnet.org/mass-wallet/masswallet/keystore"
+)
+
+// Read-only accessors for the simulator's oracles; compiled only with the
+// "verif" build tag.
+
+// SimKeystoreManager exposes the keystore manager (the public-passphrase
+// change is only reachable at that layer).
+func (w *WalletManager) SimKeystoreManager() *keystore.KeystoreManager {
+	return w.ksmgr
+}
+
+// SimUnminedTx returns the pending transaction stored under hash, if any.
+func (w *WalletManager) SimUnminedTx(hash *wire.Hash) (*wire.MsgTx, error) {
+	return w.existsUnminedTx(hash)
+}
+
+// SimTaskQueueLen returns the number of queued background tasks, or -1 when
+// the worker has not created its queue yet.
+func (w *WalletManager) SimTaskQueueLen() int {
+	if w.ntfnsHandler == nil || w.ntfnsHandler.taskChan == nil {
+		return -1
+	}
+	return len(w.ntfnsHandler.taskChan.C)
+}
+
+// SimMempoolSize returns the size of the in-memory set of known pending
+// transaction hashes.
+func (w *WalletManager) SimMempoolSize() int {
+	h := w.ntfnsHandler
+	h.memMtx.Lock()
+	defer h.memMtx.Unlock()
+	return len(h.mempool)
+}
